@@ -1222,6 +1222,7 @@ fn mutate(doc: &mut Value, m: u64, rng: &mut Rng) -> Option<String> {
         56 => {
             ensure_objectives(doc, rng);
             let kinds = flat_kinds(doc);
+            if kinds.is_empty() { return None; }
             let k = rng.pick(&kinds).clone();
             let o = match k.as_str() {
                 "compact-tour" => json!({"t": k, "radius": 2}),
@@ -1303,7 +1304,7 @@ fn mutate(doc: &mut Value, m: u64, rng: &mut Rng) -> Option<String> {
 const NULLABLE: [&str; 22] = ["times", "tag", "l", "end", "breaks", "reloads", "recharges", "limits", "relations", "clustering", "resources",
     "objectives", "demand", "order", "value2", "res", "shift", "ts", "p", "d", "r", "s"];
 const NAT_KEYS: [&str; 7] = ["i", "tt", "dist", "shift", "radius", "levels", "size"];
-const SMALL_KEYS: [&str; 3] = ["demand", "cap", "c"];
+const SMALL_KEYS: [&str; 4] = ["demand", "cap", "c", "order"];
 
 fn collect_paths(v: &Value, path: &mut Vec<String>, out: &mut Vec<Vec<String>>) {
     out.push(path.clone());
@@ -1453,5 +1454,12 @@ fn gen_cases(rng: &mut Rng, tier: Tier) -> Vec<Value> {
 }
 
 fn main() {
+    if std::env::var("C10_DEBUG_GEN").is_ok() {
+        // debugging aid: run the generator alone with the default panic hook
+        let mut rng = Rng::new(1);
+        let n = gen_cases(&mut rng, Tier::Quick).len();
+        println!("generated {n} cases");
+        return;
+    }
     run_main(gen_cases, exec);
 }
